@@ -37,7 +37,15 @@ func cmdList(args []string) {
 		os.Exit(2)
 	}
 	for _, k := range p.sortedFuncKeys() {
-		fmt.Println(k)
+		fn := p.Funcs[k]
+		file := ""
+		if fn.Pos().IsValid() {
+			file = p.Fset.Position(fn.Pos()).Filename
+			if i := strings.LastIndex(file, "/repo/"); i >= 0 {
+				file = file[i+6:]
+			}
+		}
+		fmt.Printf("%s\t%s\n", k, file)
 	}
 }
 
